@@ -8,7 +8,9 @@ from terms import show, I
 
 class SeqPolicy(terms.Policy):
     """Inline crate-private helpers (reached by call graph, never by name); keep public
-    items and trait-impl methods as atoms (they are anchors with their own rows)."""
+    items and trait-impl methods as atoms (they are anchors with their own rows).
+    Option/Result/bool combinators on symbolic values are presented as the `match` they abbreviate."""
+    fork_std = True
 
     def inline(self, callee, body, depth):
         if body["kind"] == "Closure":
